@@ -24,6 +24,48 @@ func tryReplay(eng *Engine, prop string, a *obAgg, f *Oblig, replay map[string]a
 
 var replayAdapters = map[string]func(eng *Engine, a *obAgg, f *Oblig, replay map[string]any) bool{
 	"C16": replayC16,
+	"C10": replayTemplates,
+	"C01": replayTemplates,
+	"C02": replayTemplates,
+	"C12": replayTemplates,
+	"C14": replayTemplates,
+	"C18": replayTemplates,
+	"C15": replayTemplates,
+	"C20": replayTemplates,
+}
+
+// fixedReplays: obligations whose counterexample is schedule/sequence shaped (not a function input): a hand-written
+// adapter drives the real code through the scenario the failed obligation describes.
+var fixedReplays = map[string]struct{ tmpl, pkg, run string }{
+	"(*SyncManager).tryNode/assert/resync-writes-only-the-requested-rounds": {"C10_resync_window_test.go.tmpl", "internal/chain/beacon", "TestVerifReplayC10ResyncWindow"},
+}
+
+func replayTemplates(eng *Engine, a *obAgg, f *Oblig, replay map[string]any) bool {
+	fr, ok := fixedReplays[a.Name]
+	if !ok {
+		replay["replay"] = "no replay adapter for this obligation: the violation is reported on the strength of the failed obligation alone"
+		return false
+	}
+	tb, err := os.ReadFile(filepath.Join(eng.verifDir, "replay", fr.tmpl))
+	if err != nil {
+		replay["replay"] = "adapter template missing: " + fr.tmpl
+		return false
+	}
+	src := strings.ReplaceAll(string(tb), "{{ROUND}}", "7")
+	failed, out := runOverlayTest(eng, fr.pkg, "zz_verif_replay_test.go", src, fr.run)
+	replay["replay_output"] = trunc2(out, 4000)
+	replay["replay_cmd"] = "cd /repo && go test -overlay /verif/out/replay/overlay/overlay.json -vet=off -count=1 -run " + fr.run + " -v ./" + fr.pkg + "/"
+	if failed {
+		replay["replay"] = "reproduced on the real code by the scenario adapter " + fr.tmpl
+		return true
+	}
+	replay["replay"] = "scenario adapter did not reproduce the violation on the real code"
+	return false
+}
+
+var _ = fmt.Sprint
+
+var unusedReplay = map[string]int{
 }
 
 var reModelInt = regexp.MustCompile(`\(define-fun \|?([^\s|]+)\|? \(\) Int\s+(\(- (\d+)\)|\d+)\)`)
